@@ -22,6 +22,8 @@ EXPLANATION = (
     "hence a zero gradient by the mask rule (re-checked here). Not decided: non-negativity, zero at independence, log K, unit bounds.")
 ASSUMPTIONS = ["epsilon is validated in (0,1), so clipped predictions and their means are strictly positive",
                "numpy shape semantics of gcverif/e3_numpy.py"]
+ADOPT = [("C02", ["C02-f"], "zero distances (identical or empty clusters) must not produce inf/NaN gradients"),
+         ("C17", ["C17-c"], "finite on the closed simplex")]
 
 
 def run(pm, ctx):
@@ -55,6 +57,18 @@ def run(pm, ctx):
         clip_rules(ctx, unit, qn, f)
         mask_rules(ctx, unit, qn, f)
 
+
+
+def _floored(e):
+    """e is np.maximum(., 0), or a sum / product of such terms with non-negative constants (epsilon)"""
+    if isinstance(e, ast.Call) and (call_name(e) or "").split(".")[-1] == "maximum" and len(e.args) == 2 and norm_src(e.args[1]) in ("0", "0.0"):
+        return True
+    if isinstance(e, ast.BinOp) and isinstance(e.op, (ast.Add, ast.Mult)):
+        sides = [e.left, e.right]
+        nonneg = [isinstance(x, ast.Constant) and isinstance(x.value, (int, float)) and x.value >= 0 or norm_src(x) == "self.epsilon" for x in sides]
+        fl = [_floored(x) for x in sides]
+        return all(a or b for a, b in zip(nonneg, fl)) and any(fl)
+    return False
 
 def clip_rules(ctx, unit, qn, f):
     cfg = CFG(f)
@@ -101,7 +115,7 @@ def clip_rules(ctx, unit, qn, f):
         st = _stmt(c)
         arg = c.args[0]
         site = f"{qn}: sqrt({norm_src(arg)[:40]})"
-        if isinstance(arg, ast.Call) and (call_name(arg) or "").split(".")[-1] == "maximum" and len(arg.args) == 2 and norm_src(arg.args[1]) in ("0", "0.0"):
+        if _floored(arg):
             ctx.ok("C13-b", site, "floored at 0")
             if isinstance(st, ast.Assign) and isinstance(st.targets[0], ast.Name):
                 floored_vars.add(st.targets[0].id)
